@@ -232,8 +232,9 @@ class CompleteStageHandler(
 
                 if should_handle_after_stages:
                     after_stages = stage.first_after_stages()
+                    new_after_stages: list[StageExecution] = []
                     if not after_stages:
-                        self._plan_after_stages(stage)
+                        new_after_stages = self._plan_after_stages(stage)
                         after_stages = stage.first_after_stages()
 
                     not_started = [s for s in after_stages if s.status == WorkflowStatus.NOT_STARTED]
@@ -245,6 +246,8 @@ class CompleteStageHandler(
                         # after-stages run and cancel a healthy workflow.
                         with self.repository.transaction(self.queue) as txn:
                             txn.store_stage(stage)
+                            for s in new_after_stages:
+                                txn.store_stage(s)
                             if message.message_id:
                                 txn.mark_message_processed(
                                     message_id=message.message_id,
@@ -287,8 +290,8 @@ class CompleteStageHandler(
                     # after they completed must fall through to final failure
                     # handling, not spawn duplicate on-failure stages.
                     already_planned = bool(stage.context.get("_on_failure_planned", False))
-                    has_on_failure = False if already_planned else self._plan_on_failure_stages(stage)
-                    if has_on_failure:
+                    new_on_failure_stages = [] if already_planned else self._plan_on_failure_stages(stage)
+                    if new_on_failure_stages:
                         stage.context["_on_failure_planned"] = True
                         after_stages = stage.first_after_stages()
                         # Only push StartStage for on-failure stages that are NOT_STARTED
@@ -299,6 +302,8 @@ class CompleteStageHandler(
                             # on-failure stage messages together
                             with self.repository.transaction(self.queue) as txn:
                                 txn.store_stage(stage)
+                                for s in new_on_failure_stages:
+                                    txn.store_stage(s)
                                 if message.message_id:
                                     txn.mark_message_processed(
                                         message_id=message.message_id,
